@@ -110,6 +110,9 @@ type edBoard struct {
 type edObj struct {
 	path     []string
 	labelled bool
+	// keyed: declared by a key statement of its own (not merely created as a connection
+	// endpoint or as the container on a dotted path)
+	keyed bool
 }
 
 func newEdBoard() *edBoard {
@@ -372,6 +375,10 @@ func (g *edGen) plainStmt(w *edW, b *edBoard, scope []string, d, maxDepth int) {
 			return
 		}
 		x, y := Pick(r, sibs), Pick(r, sibs)
+		if r.P(0.25) {
+			g.bundle(w, b, scope, d, x, y)
+			return
+		}
 		a := Pick(r, []string{"->", "->", "<-", "--", "<->"})
 		k := edEdgeKey(x, y, a)
 		b.edges[k]++
@@ -401,6 +408,7 @@ func (g *edGen) stmt(w *edW, b *edBoard, scope []string, d, maxDepth int) {
 			return
 		}
 		o := b.ensure(abs)
+		o.keyed = true
 		o.labelled = true
 		switch r.Intn(4) {
 		case 0:
@@ -419,6 +427,7 @@ func (g *edGen) stmt(w *edW, b *edBoard, scope []string, d, maxDepth int) {
 			return
 		}
 		o := b.ensure(abs)
+		o.keyed = true
 		hdr := edRel(rel) + ": "
 		inner := false
 		if r.P(0.75) {
@@ -443,14 +452,14 @@ func (g *edGen) stmt(w *edW, b *edBoard, scope []string, d, maxDepth int) {
 		if b.underClosed(abs) {
 			return
 		}
-		b.ensure(abs)
+		b.ensure(abs).keyed = true
 		w.line(d, edRel(rel))
 	case 3: // attribute on an object (flat form)
 		rel, abs := g.relPath(b, scope, false)
 		if b.underClosed(abs) {
 			return
 		}
-		b.ensure(abs)
+		b.ensure(abs).keyed = true
 		w.line(d, g.objAttr(edRel(rel)+".", len(abs) == 1, false))
 		g.feat["flat-attr"] = true
 	case 4: // connection(s)
@@ -463,6 +472,7 @@ func (g *edGen) stmt(w *edW, b *edBoard, scope []string, d, maxDepth int) {
 			return
 		}
 		o := b.ensure(abs)
+		o.keyed = true
 		o.labelled = true
 		w.line(d, edRel(rel)+": "+g.label()+" {")
 		for i := 0; i < r.Range(1, 3); i++ {
@@ -477,6 +487,7 @@ func (g *edGen) stmt(w *edW, b *edBoard, scope []string, d, maxDepth int) {
 			return
 		}
 		o := b.ensure(abs)
+		o.keyed = true
 		o.labelled = true
 		b.closed[edPathKey(abs)] = true
 		if r.P(0.5) {
@@ -513,7 +524,7 @@ func (g *edGen) stmt(w *edW, b *edBoard, scope []string, d, maxDepth int) {
 			return
 		}
 		if r.P(0.5) {
-			b.ensure(abs)
+			b.ensure(abs).keyed = true
 			w.line(d, EditKey(n)+".near: "+Pick(r, []string{"top-left", "top-center", "top-right", "center-left", "center-right", "bottom-left", "bottom-center", "bottom-right"}))
 			g.feat["near-const"] = true
 			return
@@ -522,7 +533,7 @@ func (g *edGen) stmt(w *edW, b *edBoard, scope []string, d, maxDepth int) {
 		if strings.EqualFold(t, n) {
 			return
 		}
-		b.ensure(abs)
+		b.ensure(abs).keyed = true
 		w.line(d, EditKey(n)+".near: "+EditKey(t))
 		g.feat["near-object"] = true
 	}
@@ -546,6 +557,14 @@ func edEdgeKey(src, dst []string, a string) string {
 
 func (g *edGen) edgeStmt(w *edW, b *edBoard, scope []string, d int) {
 	r := g.r
+	if r.P(0.08) {
+		_, x := g.relPath(b, scope, false)
+		_, y := g.relPath(b, scope, false)
+		if len(x) == len(scope)+1 && len(y) == len(scope)+1 && !b.underClosed(x) && !b.underClosed(y) {
+			g.bundle(w, b, scope, d, x, y)
+			return
+		}
+	}
 	n := 2
 	if r.P(0.2) {
 		n = r.Range(3, 4)
@@ -617,6 +636,34 @@ func (g *edGen) edgeStmt(w *edW, b *edBoard, scope []string, d int) {
 	g.feat["edge-index-ref"] = true
 }
 
+// bundle emits 3–4 parallel connections between two siblings: the first and the last carry an
+// inline label, the middle ones are labelled through explicit index keys. Deleting the first
+// must renumber the index keys of the later ones.
+func (g *edGen) bundle(w *edW, b *edBoard, scope []string, d int, x, y []string) {
+	r := g.r
+	a := Pick(r, []string{"->", "->", "--", "<-"})
+	n := r.Range(3, 4)
+	k := edEdgeKey(x, y, a)
+	decl := edRel(x[len(scope):]) + " " + a + " " + edRel(y[len(scope):])
+	b.ensure(x)
+	b.ensure(y)
+	for i := 0; i < n; i++ {
+		idx := b.edges[k]
+		b.edges[k]++
+		switch {
+		case i == 0 || i == n-1:
+			w.line(d, decl+": "+g.label())
+		default:
+			w.line(d, decl)
+			w.line(d, fmt.Sprintf("(%s)[%d].label: %s", decl, idx, g.label()))
+			if r.P(0.4) {
+				w.line(d, fmt.Sprintf("(%s)[%d].style.stroke: %s", decl, idx, Pick(r, []string{"red", "blue"})))
+			}
+		}
+	}
+	g.feat["parallel-bundle"] = true
+}
+
 func (g *edGen) edgeRefStmt(w *edW, b *edBoard, scope []string, d int) {
 	// pick an existing edge whose both endpoints live under the scope
 	var keys []string
@@ -654,6 +701,12 @@ func (g *edGen) fixup(w *edW, b *edBoard, d int, inherited *edBoard) {
 			if io := inherited.objs[k]; io != nil && io.labelled {
 				continue
 			}
+		}
+		if !o.keyed && g.r.P(0.2) {
+			// stays an object that exists only through connections / dotted paths (no key
+			// of its own, default label): boards that inherit it see it as an endpoint only
+			g.feat["endpoint-only-object"] = true
+			continue
 		}
 		o.labelled = true
 		if g.r.P(0.5) {
